@@ -158,6 +158,11 @@ func (v *SortValue) Less(compareValue *SortValue) ternary.Value {
 		}
 
 		if v.SerializedKey.Bytes()[1] == 83 && compareValue.SerializedKey.Bytes()[1] == 83 {
+			if v.String == compareValue.String {
+				// The strings differ only in what the normalization drops (character cases, surrounding spaces)
+				// or are not normalized at all (strings representing datetimes or booleans).
+				return ternary.ConvertFromBool(bytes.Compare(v.SerializedKey.Bytes(), compareValue.SerializedKey.Bytes()) < 0)
+			}
 			return ternary.ConvertFromBool(v.String < compareValue.String)
 		}
 	}
@@ -171,6 +176,12 @@ func (v *SortValue) Less(compareValue *SortValue) ternary.Value {
 			}
 			return ternary.ConvertFromBool(v.Integer < compareValue.Integer)
 		case FloatType:
+			if math.IsNaN(compareValue.Float) {
+				return ternary.TRUE
+			}
+			if v.Float == compareValue.Float {
+				return ternary.UNKNOWN
+			}
 			return ternary.ConvertFromBool(v.Float < compareValue.Float)
 		case StringType:
 			return ternary.ConvertFromBool(v.String < compareValue.String)
